@@ -99,6 +99,17 @@ func resolveComputedFields(env *Environment, errorSink *validation.ErrorSink) *E
 
 			errorSink.Add(validationError(t, "cannot cast from from '%s' to '%s'", TypeToShortSyntax(innerType, true), TypeToShortSyntax(t.Type, true)))
 			return t
+		case *UnaryExpression:
+			t = self.DefaultRewrite(t, context).(*UnaryExpression)
+			if t.Expression == nil || t.Expression.GetResolvedType() == nil {
+				return t
+			}
+
+			kind, isPrim := GetKindIfPrimitive(t.Expression.GetResolvedType())
+			if !isPrim || (kind != PrimitiveKindInteger && kind != PrimitiveKindFloatingPoint && kind != PrimitiveKindComplexFloatingPoint) {
+				errorSink.Add(validationError(t, "operator not defined for an operand with type '%s'", TypeToShortSyntax(t.Expression.GetResolvedType(), true)))
+			}
+			return t
 		case *BinaryExpression:
 			t = self.DefaultRewrite(t, context).(*BinaryExpression)
 			t = shallowClone(t)
